@@ -646,6 +646,13 @@ func calculateHashesAndRootRows(numLeaves uint64, delHashes []Hash, proof Proof)
 			// the next proof hash to calculate the parent.
 			sibHash = proof.Proof[proofHashIdx]
 			proofHashIdx++
+
+			// The sibling of a node that exists is never empty. An empty
+			// proof hash would move the node up to a position that it
+			// doesn't have.
+			if sibHash == empty {
+				return hashAndPos{}, nil, nil, fmt.Errorf("invalid proof. Proof hash is empty.")
+			}
 		}
 
 		// Calculate the next hash.
